@@ -26,7 +26,7 @@ func init() {
 		Tech:        "static analysis: guarded-by-condition on SSA, acceptance-condition enumeration for all implementations of the partition interface, constant-folded format strings",
 		NeedU1:      true,
 		NeedU2:      true,
-		Rules:       []func(*Ctx){ruleC06CheckedBeforeUse, ruleC06ExactMatch, ruleC06IDFormat, ruleC06EmptyRefused, ruleC06IDFlowsUnmodified, ruleC18KeyIDOperands, ruleC06KeyCacheIndexExact, ruleC06CachedSessionForRequestedID, ruleC19PartitionVerbatim},
+		Rules:       []func(*Ctx){ruleC06CheckedBeforeUse, ruleC06ExactMatch, ruleC06IDFormat, ruleC06EmptyRefused, ruleC06IDFlowsUnmodified, ruleC18KeyIDOperands, ruleC06KeyCacheIndexExact, ruleC06CachedSessionForRequestedID, ruleC19PartitionVerbatim, ruleC18RegionSuffixIsTheConfiguredRegion},
 	})
 }
 
